@@ -60,7 +60,7 @@ func newSys39(cfg *sysConfig, nKeys int, maxEpoch uint32, prefix []string, depth
 	for i := 0; i < nKeys; i++ {
 		y.keys = append(y.keys, blsKey(byte(0xb1+i)))
 	}
-	y.owners = [][]byte{userAddr(0xa1), userAddr(0xa2)}
+	y.owners = [][]byte{userAddr(0xa1), userAddr(0xa2), userAddr(0xa3)}
 	add := func(name, kind string, k int) {
 		y.menu = append(y.menu, name)
 		y.ops = append(y.ops, op39{name, kind, k})
@@ -384,6 +384,9 @@ func (s *st39) check() (string, string) {
 				if !bytes.Equal(e.PreviousKey, cur) {
 					return fail("previous-link-broken", "first element's PreviousKey is "+short(e.PreviousKey)+", not its own key")
 				}
+			} else if bytes.Equal(e.PreviousKey, cur) {
+				// the stale "I am the first element" self-reference of an element that is not first
+				return fail("previous-link-broken:non-first-element-points-to-itself", fmt.Sprintf("element %s has PreviousKey %s but follows %s", short(cur), short(e.PreviousKey), short(prev)))
 			} else if !bytes.Equal(e.PreviousKey, prev) {
 				return fail("previous-link-broken", fmt.Sprintf("element %s has PreviousKey %s but follows %s", short(cur), short(e.PreviousKey), short(prev)))
 			}
@@ -490,29 +493,42 @@ func configs39(c *mc.Ctx) []*sysConfig {
 }
 
 func runC39(c *mc.Ctx) {
-	nKeys := 4
 	maxEpoch := uint32(2)
 	cfgs := configs39(c)
-	// warm start: the maximum (2) is filled and two more keys are queued, so the bounded
-	// search spends its depth on queue manipulation instead of on filling the queue
+	// warm starts are fixed prefixes of real transactions, so the bounded search spends its
+	// depth on queue manipulation instead of on filling the queue:
+	//  warm  (4 keys): the maximum (2) is filled and two more keys are queued
+	//  pair  (5 keys): additionally two validators were jailed out (switchJailedWithWaiting
+	//        moved k3, k4 in), k5 is queued: the only way to reach an insertion after the
+	//        last-jailed marker in the middle of the queue (needs a fifth key)
 	warm := []string{"stake(k1)", "stake(k2)", "stake(k3)", "stake(k4)"}
+	pair := []string{"stake(k1)", "stake(k2)", "stake(k3)", "stake(k4)", "stake(k5)", "switchJailedWithWaiting(k1)", "switchJailedWithWaiting(k2)"}
 	c.Rule = "non-trivial = a reached state whose waiting list is non-empty, counted per distinct (config, start, Length, LastJailedKey, FirstKey, StakedNodes)"
 	c.Assumptions = []string{
 		"driver = production wiring (NewVMContext + NewSystemSCFactory.Create + NewSystemVM, GogoProtoMarshalizer) over a map world; a transaction's VMOutput is applied iff its return code is Ok",
-		"user operations enter through the validator contract (stake/unStake/unBond/unJail by the key's owner; 2 owners with 2 BLS keys each; the owner pays the node price 1000 with stake unless the key is already staked or queued; unJail pays the unJail price); protocol operations call the staking contract with the protocol addresses",
+		"user operations enter through the validator contract (stake/unStake/unBond/unJail by the key's owner; owners hold keys (k1,k2), (k3,k4), (k5); the owner pays the node price 1000 with stake unless the key is already staked or queued; unJail pays the unJail price); protocol operations call the staking contract with the protocol addresses",
 		"stakeNodesFromQueue follows the production caller (systemSCProcessor with the correct-num-nodes-to-stake rule): it is issued only as the end of an end-of-epoch step, with n = number of nodes whose Staked flag unStakeAtEndOfEpoch cleared in that step, no user transaction interleaves, and the step exists only while staking v2 is enabled; the staking contract itself does not bound n",
 		"'well-formed doubly linked list' uses the contract's own convention: first element's PreviousKey = its own key, last element's NextKey empty; 'last-jailed marker matches' = LastJailedKey empty or an element of the list",
 		"'unless that maximum was lowered' = a successful updateConfigMaxNodes(n) with n below the previous maximum occurred earlier in the history (sticky)",
 		"peer accounts (validator statistics) are absent: CanUnJail/IsBadRating/IsValidator are false; block nonce = 10*epoch+5, staking unbond period 10 nonces / 1 epoch, so an epoch event elapses the unbonding period",
-		"two start states per configuration: genesis, and genesis followed by stake(k1..k4) (2 staked, 2 queued) - the second is a fixed prefix of real transactions, i.e. histories of length 4+depth",
+		"three start states per configuration: genesis; genesis + stake(k1..k4) (2 staked, 2 queued); genesis + stake(k1..k5) + switchJailedWithWaiting(k1), (k2) (k3,k4 staked, k1,k2 jailed out, k5 queued) - fixed prefixes of real transactions, i.e. histories of length prefix+depth",
 	}
 	var systems []*sys39
 	for i, cfg := range cfgs {
-		dCold, dWarm := pickDepth(c, 5, 7), pickDepth(c, 4, 6)
-		if !c.Quick() && i >= 4 && *depthFlag == 0 {
-			dCold, dWarm = 6, 5 // the additional thorough-tier configurations are searched one level less deep
+		var dCold, dWarm, dPair int
+		switch {
+		case *depthFlag > 0:
+			dCold, dWarm, dPair = *depthFlag, *depthFlag, *depthFlag
+		case c.Quick():
+			dCold, dWarm, dPair = 5, 4, 3
+		case i == 0: // the configuration with every feature enabled from epoch 0
+			dCold, dWarm, dPair = 7, 6, 5
+		case i < 4:
+			dCold, dWarm, dPair = 6, 5, 4
+		default:
+			dCold, dWarm, dPair = 5, 5, 4
 		}
-		systems = append(systems, newSys39(cfg, nKeys, maxEpoch, nil, dCold), newSys39(cfg, nKeys, maxEpoch, warm, dWarm))
+		systems = append(systems, newSys39(cfg, 4, maxEpoch, nil, dCold), newSys39(cfg, 4, maxEpoch, warm, dWarm), newSys39(cfg, 5, maxEpoch, pair, dPair))
 	}
 	if len(c.ReplayData) > 0 {
 		replayNames(c, func(names []string) {
@@ -557,7 +573,7 @@ func runC39(c *mc.Ctx) {
 	c.Set("menu", systems[0].menu)
 	c.Set("searches", bounds)
 	if complete {
-		c.Bound = fmt.Sprintf("all histories of the menu of %d operations (%d BLS keys, 2 owners, epochs 0..%d) with state matching, %d searches = %d (min/max nodes, feature-epoch) configurations x {from genesis, from 2 staked + 2 queued}; depths %d/%d (first four configurations), see coverage.searches", len(systems[0].menu), nKeys, maxEpoch, len(systems), len(cfgs), systems[0].depth, systems[1].depth)
+		c.Bound = fmt.Sprintf("all histories over the menu of %d operations (4 BLS keys, 2 owners; %d with 5 keys, 3 owners; epochs 0..%d) with state matching, %d searches = %d (min/max nodes, feature-epoch) configurations x {from genesis, from 2 staked + 2 queued, from 2 staked + 2 jailed out + 1 queued}; depths %d/%d/%d for the first configuration, per search in coverage.searches", len(systems[0].menu), len(systems[2].menu), maxEpoch, len(systems), len(cfgs), systems[0].depth, systems[1].depth, systems[2].depth)
 	} else {
 		c.Bound = "search stopped before the depth bound"
 	}
